@@ -49,7 +49,6 @@ import (
 	"os"
 	"os/exec"
 	"path/filepath"
-	"runtime/pprof"
 	"sort"
 	"strconv"
 	"strings"
@@ -68,11 +67,6 @@ func init() {
 	if os.Getenv("VERIF_C09_CHILD") == "1" {
 		c09Child()
 		os.Exit(0)
-	}
-	if pf := os.Getenv("VERIF_C09_PROF"); pf != "" {
-		f, _ := os.Create(pf)
-		_ = pprof.StartCPUProfile(f)
-		go func() { time.Sleep(4 * time.Second); pprof.StopCPUProfile(); f.Close() }()
 	}
 	Register(&Prop{Gen: genC09, NewRunner: func() Runner { return newC09Runner() }})
 }
@@ -595,6 +589,14 @@ func c09Call(e *message.Engine, cache map[int]*message.ChannelStore, f []string)
 }
 
 func (r *c09Runner) Step(op string) string {
+	if os.Getenv("VERIF_C09_TIMING") != "" {
+		t0 := time.Now()
+		defer func() { fmt.Fprintf(os.Stderr, "T %s %d\n", strings.Fields(op)[0], time.Since(t0).Microseconds()) }()
+	}
+	return r.step(op)
+}
+
+func (r *c09Runner) step(op string) string {
 	f := strings.Fields(op)
 	if len(f) == 0 {
 		return "bad-op"
